@@ -178,18 +178,45 @@ deriving DecidableEq, Repr, Inhabited
 
 def pruneDeps (set : List String) (s : Svc) : Svc := { s with deps := s.deps.filter (fun kv => kv.1 ∈ set) }
 
-/-- one round of the `for name, s := range newProject.Services` loop of `WithSelectedServices` -/
-def selectStep (set : List String) (acc : Proj × AL Svc) (kv : String × Svc) : Proj × AL Svc :=
-  if kv.1 ∈ set then (acc.1, insert kv.1 (pruneDeps set kv.2) acc.2)
-  else (disableOne acc.1 kv.1, acc.2)
+/-- `sort.Strings` (as insertion sort; every sort returns the same list, `sortNames_eq_of_perm`) -/
+def insertName (x : String) : List String → List String
+  | [] => [x]
+  | y :: ys => if x ≤ y then x :: y :: ys else y :: insertName x ys
 
-/-- `Project.WithSelectedServices`.  The range is over the service map of the first copy, in list order;
-`newProject` is replaced by a fresh copy on every `WithServicesDisabled`. -/
+def sortNames : List String → List String
+  | [] => []
+  | x :: xs => insertName x (sortNames xs)
+
+/-- one round of the `for name, s := range newProject.Services` loop of `WithSelectedServices`:
+a selected service is pruned and kept, the name of any other is collected -/
+def selectStep (set : List String) (acc : List String × AL Svc) (kv : String × Svc) : List String × AL Svc :=
+  if kv.1 ∈ set then (acc.1, insert kv.1 (pruneDeps set kv.2) acc.2)
+  else (acc.1 ++ [kv.1], acc.2)
+
+/-- `Project.WithSelectedServices` (after the `fix:` commit): the range is over the service map in list order;
+the collected names are sorted and disabled with a single `WithServicesDisabled` call. -/
 def withSelectedServices (p : Proj) (names : List String) (pol : Policy) : Out :=
   if names.isEmpty then .ok p
   else match forEachService p names pol with
     | .ok set =>
-      let r := p.services.foldl (selectStep set) (p, [])
+      let r := p.services.foldl (selectStep set) ([], [])
+      .ok { withServicesDisabled p (sortNames r.1) with services := r.2 }
+    | .noSuchService => .err
+    | .outOfFuel => .fuel
+
+/-! ### the loop as it was before the `fix:` commit (kept for `Neg/C15.lean`) -/
+
+/-- pre-fix: every non-selected service was disabled on the spot, in range order -/
+def selectStepPre (set : List String) (acc : Proj × AL Svc) (kv : String × Svc) : Proj × AL Svc :=
+  if kv.1 ∈ set then (acc.1, insert kv.1 (pruneDeps set kv.2) acc.2)
+  else (disableOne acc.1 kv.1, acc.2)
+
+/-- pre-fix `Project.WithSelectedServices`: `newProject` was replaced by a fresh copy on every `WithServicesDisabled` -/
+def withSelectedServicesPre (p : Proj) (names : List String) (pol : Policy) : Out :=
+  if names.isEmpty then .ok p
+  else match forEachService p names pol with
+    | .ok set =>
+      let r := p.services.foldl (selectStepPre set) (p, [])
       .ok { r.1 with services := r.2 }
     | .noSuchService => .err
     | .outOfFuel => .fuel
@@ -207,7 +234,7 @@ def pickStep (m : AL String) (acc : AL String) (k : String) : AL String :=
 
 def pick (required : List String) (m : AL String) : AL String := required.foldl (pickStep m) []
 
-/-- `Project.WithoutUnnecessaryResources` -/
+/-- `Project.WithoutUnnecessaryResources` (the kept values come from the copy, which equals the receiver as a value) -/
 def withoutUnnecessaryResources (p : Proj) : Proj :=
   { p with
     networks := pick (p.services.flatMap (fun kv => kv.2.nets)) p.networks
